@@ -56,9 +56,10 @@ class RecBase:
         for _, attr, _, _, kind in SPEC:
             n += 1
             if kind == "ij":
-                setattr(self, attr, {k: numpy.full((3, 2), 100.0 * n + i) for i, k in enumerate(keys3())})
+                # magnitudes of the internal units (Ry/bohr^3): 0.02 is 294 GPa; the last component is small but legitimate (-0.6 GPa), every available one is tabulated
+                setattr(self, attr, {k: numpy.full((3, 2), (0.02, 0.004, 0.0007, -4.0e-5)[i] * (1.0 + 0.01 * n)) for i, k in enumerate(keys3())})
             else:
-                setattr(self, attr, numpy.full((3, 2), 100.0 * n))
+                setattr(self, attr, numpy.full((3, 2), 0.01 * n))
 
     def write_table(self, fname, value):
         self.written.append((fname, numpy.array(value, dtype=float)))
@@ -216,7 +217,7 @@ def synthetic_calculator(rnd, nt, ntv, npres, tmin, dt, pmin, dp, dts_factor=1):
     mod_s, mod_t = {}, {}
     for k in keys:
         I, J = k.voigt
-        base = (0.02 if I == J else 0.004 if (I <= 3 and J <= 3) else 0.0007) * (1 + 0.1 * I + 0.01 * J)
+        base = (0.02 if I == J else 0.004 if (I <= 3 and J <= 3) else 0.0007 if (I, J) == (1, 5) else -4.0e-5) * (1 + 0.1 * I + 0.01 * J)          # c46: small but legitimate (-0.8 GPa)
         f = base * (1 + 0.0012 * (1000 - V)[None, :]) * (1 - 2e-5 * t[:, None])
         mod_s[k] = f
         mod_t[k] = f * (1 - 0.01 * (t[:, None] / (t.max() + 1)))
